@@ -281,7 +281,10 @@ class ttensor:
         if self.ndims != other.ndims:
             return False
         return self.core.isequal(other.core) and all(
-            np.array_equal(this_factor, other_factor)
+            np.array_equal(
+                this_factor.toarray() if sparse.issparse(this_factor) else this_factor,
+                other_factor.toarray() if sparse.issparse(other_factor) else other_factor,
+            )
             for this_factor, other_factor in zip(
                 self.factor_matrices, other.factor_matrices
             )
